@@ -198,16 +198,16 @@ func c05Defects(base *specs.Spec) []c05Defect {
 				mem("env", lvl, el, fmt.Sprintf("%q", v), func(s *specs.Spec) { c05Edits(s, lvl).Env[idx(el)] = v })
 			}
 			mem("node-path-empty", lvl, el, "", func(s *specs.Spec) { c05Edits(s, lvl).DeviceNodes[idx(el)].Path = "" })
-			for _, t := range []string{"x", "C", "cc", "block"} {
+			for _, t := range []string{"x", "C", "cc", "block", "bc", "cu", "up", "bcup", "cb", " c", "c ", "char", "b,c"} {
 				t := t
 				mem("node-type", lvl, el, t, func(s *specs.Spec) { c05Edits(s, lvl).DeviceNodes[idx(el)].Type = t })
 			}
-			for _, p := range []string{"rx", "rwmx", "R", "r w", "0"} {
+			for _, p := range []string{"rx", "rwmx", "R", "r w", "0", "rwn", "mrwx", "r,w"} {
 				p := p
 				mem("node-permissions", lvl, el, p, func(s *specs.Spec) { c05Edits(s, lvl).DeviceNodes[idx(el)].Permissions = p })
 			}
 			mem("node-null", lvl, el, "null", func(s *specs.Spec) { c05Edits(s, lvl).DeviceNodes[idx(el)] = nil })
-			for _, h := range []string{"preStart", "", "prestart ", "create"} {
+			for _, h := range []string{"preStart", "", "prestart ", "create", "createruntime", "poststart,poststop", "Poststop", "startContainer "} {
 				h := h
 				mem("hook-stage", lvl, el, fmt.Sprintf("%q", h), func(s *specs.Spec) { c05Edits(s, lvl).Hooks[idx(el)].HookName = h })
 			}
